@@ -17,6 +17,21 @@ EXPLANATION = (
     "dirties the journal superblock nor opens an external journal read-write unless not read-only or an accepted, "
     "prompting fix_problem(); ext2fs_close2 flushes only a dirty handle.")
 
+# library entry points that write to, or dirty state to be written to, the device (C13.i)
+WRITERS = ("ext2fs_write_inode", "ext2fs_write_inode_full", "ext2fs_write_inode2", "ext2fs_write_new_inode",
+           "e2fsck_write_inode", "e2fsck_write_inode_full", "ext2fs_write_dir_block4", "ext2fs_write_dir_block3",
+           "ext2fs_write_dir_block", "ext2fs_write_ext_attr3", "ext2fs_write_ext_attr2", "ext2fs_write_ext_attr",
+           "ext2fs_zero_blocks2", "ext2fs_zero_blocks", "ext2fs_mark_bb_dirty", "ext2fs_mark_ib_dirty",
+           "ext2fs_flush", "ext2fs_flush2", "ext2fs_write_bitmaps", "e2fsck_write_bitmaps", "ext2fs_write_ind_block",
+           "ext2fs_mmp_write", "ext2fs_mmp_update", "ext2fs_mmp_update2", "ext2fs_mmp_start", "ext2fs_mmp_stop",
+           "ext2fs_update_bb_inode", "ext2fs_xattrs_write", "ext2fs_extent_replace", "ext2fs_extent_insert",
+           "ext2fs_extent_delete", "ext2fs_extent_set_bmap", "ext2fs_extent_fix_parents", "ext2fs_punch",
+           "ext2fs_block_alloc_stats2", "ext2fs_inode_alloc_stats2", "ext2fs_block_alloc_stats_range",
+           "ext2fs_file_write", "ext2fs_file_flush", "ext2fs_link", "ext2fs_unlink", "ext2fs_mkdir",
+           "ext2fs_expand_dir", "ext2fs_new_dir_block", "ext2fs_inline_data_set", "ext2fs_create_resize_inode",
+           "ext2fs_add_journal_inode", "ext2fs_create_orphan_file", "ext2fs_truncate_orphan_file",
+           "quota_write_inode", "quota_remove_inode", "ext2fs_adjust_ea_refcount3", "ext2fs_adjust_ea_refcount2")
+
 RW_MACROS = ("EXT2_FLAG_RW", "IO_FLAG_RW", "O_RDWR", "O_WRONLY")
 
 
@@ -96,6 +111,15 @@ def has_var_guard(guards, name, truth):
         if T.path(a) == name and t == truth:
             return True
     return False
+
+
+from vlib import taint
+
+
+class _CallAt:
+    """a call expression standing in for its node (problems.codes_at reads .ev["x"] only)"""
+    def __init__(self, c):
+        self.ev = {"e": "C", "x": c}
 
 
 def run(world, rep, tier, only=None):
@@ -432,9 +456,10 @@ def run(world, rep, tier, only=None):
             for c in T.calls(a):
                 if c.get("fn") == "fix_problem":
                     # the call node of that fix_problem in fn
-                    cn = [x for x in fn.call_nodes() if x.ev["x"].get("id") == c.get("id")]
-                    codes, res = problems.codes_at(fn, cn[0], ef) if cn else (set(), False)
-                    if res and codes and all(v in bycode and bycode[v].prompt != 0 for v, _ in codes):
+                    codes, res = problems.codes_at(fn, _CallAt(c), ef)
+                    if res and codes and all(v in bycode and (bycode[v].prompt != 0 or
+                                                              "PR_NOCOLLATE" not in bycode[v].flag_names)
+                                             for v, _ in codes):
                         return True, "gated by accepted fix_problem(%s) (prompting rows: answer is 0 under -n)" % \
                             ",".join(sorted(nm for _, nm in codes))
         # early-exit form: a dominating `if (!fix_problem(...)) return;`
@@ -470,6 +495,181 @@ def run(world, rep, tier, only=None):
             rep.ob("C13.c", site(fn, "mark_buffer_dirty(j_sb_buffer)[%d]" % idx), ok,
                    "journal superblock buffer dirtied at %s: %s" % (n.where(), why))
     rep.floor("C13.c journal sb dirty sites", n_sites, 5)
+    # ---------------------------------------------------------------- C13.h the superblock is marked dirty only with consent
+    # ext2fs_close2() flushes whatever was marked dirty - it does not look at EXT2_FLAG_RW - so under -n every
+    # ext2fs_mark_super_dirty() in e2fsck is a write request that only the O_RDONLY descriptor turns away.  Each call
+    # is reached only past a consent that -n cannot give: !(options & READONLY), !(options & NO) (READONLY is set only
+    # from NO), options & PREEN (exclusive with -n in PRS), an accepted fix_problem() (0 under -n unless the row is
+    # PROMPT_NONE|PR_NOCOLLATE), a field or return value that is itself set only past such a consent; or all callers are.
+    prs_ = ef.fn("PRS", "e2fsck/unix.c")
+    ro_intro = [(s_, gl) for (s_, gl) in introductions(prs_, "E2F_OPT_READONLY") if s_.ev["e"] == "S"]
+    rep.floor("C13.h E2F_OPT_READONLY introductions in PRS", len(ro_intro), 1)
+    for k_, (s_, gl) in enumerate(ro_intro):
+        ok = all(has_bit_guard(all_guards(prs_, s_, tg), "E2F_OPT_NO", True, "options") for tg in gl)
+        rep.ob("C13.h", site(prs_, "E2F_OPT_READONLY set only under E2F_OPT_NO#%d" % k_), ok,
+               "so !(options & E2F_OPT_NO) implies a read-write run: %s" % s_.text()[:50])
+    for (mac, other) in (("E2F_OPT_NO", "E2F_OPT_PREEN"), ("E2F_OPT_PREEN", "E2F_OPT_NO")):
+        intro = [(s_, gl) for (s_, gl) in introductions(prs_, mac) if s_.ev["e"] == "S"]
+        rep.floor("C13.h %s introductions in PRS" % mac, len(intro), 1)
+        for k_, (s_, gl) in enumerate(intro):
+            ok = all(has_bit_guard(all_guards(prs_, s_, tg), other, False, "options") for tg in gl)
+            rep.ob("C13.h", site(prs_, "%s excludes %s#%d" % (mac, other, k_)), ok,
+                   "%s is set only when %s is not: %s" % (mac, other, s_.text()[:50]))
+
+    # option bits PRS never leaves set together with E2F_OPT_NO: taken back when -n is given, or the combination is fatal
+    def setters_of(mac):
+        out = []
+        for g_ in ef.functions():
+            if g_.file.startswith("e2fsck/"):
+                out += [(g_, s_) for (s_, gl) in introductions(g_, mac) if s_.ev["e"] == "S" and
+                        (T.last_field(s_.ev["lhs"]) or ("", ""))[1] == "options"]
+        return out
+    excluded = ["E2F_OPT_PREEN"]
+    for mac in ("E2F_OPT_DISCARD", "E2F_OPT_COMPRESS_DIRS"):
+        sets = setters_of(mac)
+        rep.floor("C13.h stores that set %s" % mac, len(sets), 1)
+        # where PRS resolves the combination: a store clearing the bit, or a fatal_error(), under NO (and the bit)
+        res_nodes = []
+        for n in prs_.nodes():
+            if not n.ev:
+                continue
+            g = [(t, resolve_local(prs_, a)) for t, a in control_lits(prs_, n)]
+            if not has_bit_guard(g, "E2F_OPT_NO", True, "options"):
+                continue
+            if n.ev["e"] == "S" and n.ev.get("o") == "&=" and mac in T.macros(n.ev.get("rhs") or {}) and \
+                    (T.last_field(n.ev["lhs"]) or ("", ""))[1] == "options":
+                res_nodes.append(n)
+            elif is_call(n, "fatal_error") and has_bit_guard(g, mac, True, "options"):
+                res_nodes.append(n)
+        ok = bool(res_nodes)
+        late = []
+        if ok:
+            # the test of E2F_OPT_NO that leads there comes after every place the bit can be set
+            tests = [prs_.block_end(b) for b in prs_.blocks if prs_.literal(b) and
+                     lit_tests_bit(resolve_local(prs_, prs_.literal(b)[0]), "E2F_OPT_NO", "options") and
+                     any(r_ in prs_.reach([prs_.block_end(b)]) for r_ in res_nodes)]
+            first = tests[:1]
+            after = prs_.reach(first) if first else set()
+            for (g_, s_) in sets:
+                if g_ is prs_:
+                    if s_ in after:
+                        late.append(s_.where())
+                else:
+                    cs_ = ef.callers().get(g_.key, [])
+                    if not cs_ or any(cf is not prs_ or cn in after for (cf, cn) in cs_):
+                        late.append(s_.where())
+            ok = bool(first) and not late
+        rep.ob("C13.h", site(prs_, "%s does not survive -n" % mac), ok,
+               "PRS clears the bit or stops when E2F_OPT_NO is set, after every store that sets it: resolved at %s; set later at %s" %
+               ([r_.where() for r_ in res_nodes][:2], late))
+        if ok:
+            excluded.append(mac)
+    from rules import c13_consent
+    from rules.c13_consent import Consent
+    cons = Consent(world, ef, bycode, excluded)
+    h_sites, i_sites, w_sites = [], [], []
+    for fn in ef.functions():
+        if not fn.file.startswith("e2fsck/"):
+            continue
+        for i, n in enumerate(calls_to(fn, "ext2fs_mark_super_dirty")):
+            h_sites.append((fn, i, n))
+            cons.site(fn, n)
+        for n in fn.call_nodes():
+            if effects.is_write_req(fn, n):
+                i_sites.append((fn, n))
+                cons.site(fn, n)
+            elif is_call(n, *WRITERS):
+                w_sites.append((fn, n))
+                cons.site(fn, n)
+    cons.solve()
+    for (fn, i, n) in h_sites:
+        ok, why = cons.explain(cons.site_key(fn, n))
+        rep.ob("C13.h", site(fn, "ext2fs_mark_super_dirty[%d]" % i), ok,
+               "superblock marked dirty at %s: %s" % (n.where(), why))
+    rep.floor("C13.h superblock dirty marks in e2fsck", len(h_sites), 50)
+    # C13.i the same for every write request e2fsck itself sends to the channel
+    I_EXEMPT = {
+        ("e2fsck/ehandler.c", "e2fsck_handle_write_error"):
+            "the channel's write-error handler: runs only on behalf of a write request that was already sent and failed",
+    }
+    seen_i = {}
+    for (fn, n) in i_sites:
+        ok, why = cons.explain(cons.site_key(fn, n))
+        k_ = seen_i.setdefault((fn.key, T.call_names(n.ev["x"])[0]), [0])
+        k_[0] += 1
+        ex = I_EXEMPT.get((fn.file, fn.name))
+        rep.ob("C13.i", site(fn, "%s#%d" % (T.call_names(n.ev["x"])[0], k_[0] - 1)), ok or bool(ex),
+               "write request at %s: %s" % (n.where(), why if ok else (ex or why)))
+    rep.floor("C13.i write requests sent by e2fsck's own code", len(i_sites), 10)
+    # C13.j the library's writers called from e2fsck.  Where the consent is visible in the control flow the call is
+    # decided like the others; the calls listed here are gated through values the analysis does not follow (each read):
+    import os as _os
+    W_VALUE_GATED = {
+        ("e2fsck/pass1.c", "e2fsck_clear_inode", "e2fsck_write_inode"):
+            "called behind accepted fix_problem()s, or from e2fsck_pass1's clear_inode label, jumped to behind PR_1_ROOT_NO_DIR "
+            "or add_encrypted_file() < 0 (-1 only behind PR_1_CORRUPT_ENCRYPTION_XATTR or a fatal problem)",
+        ("e2fsck/pass1.c", "e2fsck_get_alloc_block", "ext2fs_mark_bb_dirty"):
+            "the allocation hook: runs on behalf of a library allocation, itself one of the writer calls decided here",
+        ("e2fsck/pass2.c", "check_dir_block", "ext2fs_write_dir_block4"):
+            "behind dir_modified, advanced on fix_problem() answers handed back by check_dot/check_dotdot/check_name/"
+            "encoded_check_name/check_encrypted_dirent",
+        ("e2fsck/pass2.c", "check_dir_block", "ext2fs_inline_data_set"): "same test of dir_modified",
+        ("e2fsck/pass2.c", "clear_htree", "e2fsck_write_inode"):
+            "parse_int_node's clear_and_exit: behind fix_problem() or e2fsck_dir_will_be_rehashed(), true only for "
+            "-D or a directory on dirs_to_hash, which takes members only past a consent (decided below)",
+        ("e2fsck/pass4.c", "e2fsck_pass4", "e2fsck_write_inode_full"):
+            "behind fix_nlink, which holds a fix_problem() answer",
+        ("e2fsck/pass5.c", "check_block_bitmaps", "ext2fs_mark_bb_dirty"):
+            "behind fixit == 1, the answer of end_problem_latch()'s fix_problem()",
+        ("e2fsck/pass5.c", "check_inode_bitmaps", "ext2fs_mark_ib_dirty"): "same, for the inode bitmap",
+        ("e2fsck/badblocks.c", "read_bad_blocks_file", "ext2fs_update_bb_inode"):
+            "runs for -c/-l/-L only, each of which PRS refuses together with -n",
+        ("e2fsck/util.c", "e2fsck_write_inode_full", "ext2fs_write_inode_full"): "wrapper: its callers are the sites decided here",
+        ("e2fsck/util.c", "e2fsck_write_inode", "ext2fs_write_inode"): "wrapper: its callers are the sites decided here",
+        ("e2fsck/util.c", "e2fsck_mmp_update", "ext2fs_mmp_update"):
+            "the library returns at once without EXT2_FLAG_RW or with EXT2_FLAG_SKIP_MMP, which -n sets",
+        ("e2fsck/util.c", "fatal_error", "ext2fs_mmp_stop"):
+            "the library returns at once without EXT2_FLAG_RW or with EXT2_FLAG_SKIP_MMP, which -n sets",
+        ("e2fsck/extents.c", "load_extents", "ext2fs_block_alloc_stats2"):
+            "pass 1E walks inodes_to_rebuild, which e2fsck_rebuild_extents_later() fills only without E2F_OPT_NO",
+        ("e2fsck/extents.c", "find_blocks", "ext2fs_block_alloc_stats2"): "same walk of inodes_to_rebuild",
+        ("e2fsck/extents.c", "rewrite_extent_replay", "e2fsck_write_inode"): "same walk of inodes_to_rebuild",
+        ("e2fsck/extents.c", "rewrite_extent_replay", "ext2fs_extent_fix_parents"): "same walk of inodes_to_rebuild",
+        ("e2fsck/extents.c", "rewrite_extent_replay", "ext2fs_extent_insert"): "same walk of inodes_to_rebuild",
+    }
+    seen_w = {}
+    n_w_ok = 0
+    used_gated = set()
+    for (fn, n) in w_sites:
+        ok, why = cons.explain(cons.site_key(fn, n))
+        callee = T.call_names(n.ev["x"])[0]
+        k_ = seen_w.setdefault((fn.key, callee), [0])
+        k_[0] += 1
+        ex = None if ok else W_VALUE_GATED.get((fn.file, fn.name, callee))
+        n_w_ok += ok
+        if _os.environ.get("C13_DEBUG") == "why" and ok:
+            print("WHY", fn.name, n.line, callee, "::", why[:160])
+        if ex:
+            used_gated.add((fn.file, fn.name, callee))
+        rep.ob("C13.j", site(fn, "%s#%d" % (callee, k_[0] - 1)), ok or bool(ex),
+               "library writer called at %s: %s" % (n.where(), why if ok else (("gated through a value: " + ex) if ex else why)))
+    rep.floor("C13.j library writer calls in e2fsck", len(w_sites), 100)
+    rep.floor("C13.j of them past a consent in the control flow", n_w_ok, 100)
+    # the two containers the value-gated entries lean on take members only past a consent
+    for (fld_, why_) in (("dirs_to_hash", "clear_htree adds the directory whose index it has just cleared"),
+                         ("inodes_to_rebuild", None)):
+        adds = [(g_, cn, nm) for (g_, cn, nm, ba) in cons._calls_on(("e2fsck_struct", fld_))
+                if nm in c13_consent.ADDERS or (ba and nm not in c13_consent.RELEASERS)]
+        rep.floor("C13.j calls that fill ctx->%s" % fld_, len(adds), 2)
+        for k_, (g_, cn, nm) in enumerate(adds):
+            ok, why = cons.site(g_, cn)
+            if not ok:
+                cons.solve()
+                ok, why = cons.explain(cons.site_key(g_, cn))
+            ex = (not ok) and why_ and g_.name == "clear_htree"
+            rep.ob("C13.j", site(g_, "%s(ctx->%s)#%d" % (nm, fld_, k_)), ok or bool(ex),
+                   "the container is filled at %s: %s" % (cn.where(), why if ok else (why_ if ex else why)))
+    rep.note("C13.h-j consent analysis: %d rounds, %d questions" % (cons.rounds, len(cons.true) + len(cons.open)))
     gj = ef.fn("e2fsck_get_journal", jfile)
     jopen = calls_to(gj, "struct_io_manager.open")
     rep.floor("C13.c external journal open", len(jopen), 1)
